@@ -43,16 +43,20 @@ def merase : MMap κ ν → κ → Option (ν × Nat) × MMap κ ν
     (r.1, (k, w, c) :: r.2)
 
 /-- `collect_into_key_eq_map` : duplicates of a key are counted, the FIRST value is kept -/
-def collectKeyEq (l : List (κ × ν)) : MMap κ ν :=
-  l.foldl (fun m kv => match mget m kv.1 with
-    | some _ => mbump m kv.1 1
-    | none => mput m kv.1 kv.2 1) []
+def stepKE (m : MMap κ ν) (kv : κ × ν) : MMap κ ν :=
+  match mget m kv.1 with
+  | some _ => mbump m kv.1 1
+  | none => mput m kv.1 kv.2 1
+
+def collectKeyEq (l : List (κ × ν)) : MMap κ ν := l.foldl stepKE []
 
 /-- `collect_into_key_value_eq_map` : a duplicate key with a different value restarts at (value, 1) -/
-def collectKeyValueEq (l : List (κ × ν)) : MMap κ ν :=
-  l.foldl (fun m kv => match mget m kv.1 with
-    | some (w, _) => if w = kv.2 then mbump m kv.1 1 else mput m kv.1 kv.2 1
-    | none => mput m kv.1 kv.2 1) []
+def stepKV (m : MMap κ ν) (kv : κ × ν) : MMap κ ν :=
+  match mget m kv.1 with
+  | some (w, _) => if w = kv.2 then mbump m kv.1 1 else mput m kv.1 kv.2 1
+  | none => mput m kv.1 kv.2 1
+
+def collectKeyValueEq (l : List (κ × ν)) : MMap κ ν := l.foldl stepKV []
 
 def expand (m : MMap κ ν) : List (κ × ν) := m.flatMap fun (k, v, c) => List.replicate c (k, v)
 
